@@ -263,6 +263,12 @@ func TestC44(t *testing.T) {
 		}
 	}
 
+	controlSet := &c44Set{}
+	controlValue := c44New(rng, "Ct")
+	settings.SetDefault("ego.verif.c44.control", controlValue)
+	controlSet.add("control", controlValue)
+
+	sampleCtr := 0
 	namedSet := &c44Set{}
 	for k, v := range named {
 		namedSet.add("setting-named-like-a-secret:"+k, v)
@@ -466,6 +472,18 @@ func TestC44(t *testing.T) {
 
 		for range namedSet.scan(hay.Bytes()) {
 			r.Count("echo.setting-named-like-a-secret (not judged)", 1)
+		}
+
+		// positive control: a canary stored in a setting that is NOT a secret must be seen by the same scanner
+		if len(controlSet.scan(hay.Bytes())) > 0 {
+			r.Count("control.canary_detected_in_responses", 1)
+		}
+
+		elided := bytes.Count(body, []byte(defs.ElidedPassword))
+		r.Count("events.elision_placeholders_seen", int64(elided))
+
+		if sampleCtr++; sampleCtr%500 == 3 || (elided > 3 && sampleCtr%40 == 0) {
+			r.Sample(map[string]any{"route": q.route, "user": q.user, "path": vh.Trunc(q.path, 120), "status": resp.Status, "response_bytes": len(body), "elided_placeholders": elided, "phase": phase})
 		}
 	}
 
@@ -718,6 +736,10 @@ func TestC44(t *testing.T) {
 
 	if r.Evaluations == 0 {
 		t.Fatal("observed nothing")
+	}
+
+	if r.Counters["control.canary_detected_in_responses"] == 0 {
+		t.Fatal("the scanner did not see the control canary in any response: the monitor is blind")
 	}
 
 	if err := r.Write(); err != nil {
